@@ -239,6 +239,8 @@ def goZero : PType → Json
 /-- behaviours of the harness' recording handlers -/
 inductive Behaviour where
   | echo | fail | internal | nilres | typednil | both
+  /-- blocks until the request context is cancelled, then answers like `echo` -/
+  | waitctx
   deriving Repr, DecidableEq, Inhabited
 
 def behave (b : Behaviour) (args : List Json) : HResult :=
@@ -249,6 +251,7 @@ def behave (b : Behaviour) (args : List Json) : HResult :=
   | .nilres => {}
   | .typednil => { result := some .null }
   | .both => { result := some (.arr args), error := some { code := 7, message := "both" } }
+  | .waitctx => { result := some (.arr args) }
 
 def goEnv (strictAny : Bool) (behaviours : List (String × Behaviour)) : Env where
   decode := goDecode strictAny
